@@ -85,3 +85,17 @@ def Covers (inp : ErrInput) (P : Nat → List Node) : Prop :=
 end MPE
 
 end FP.Spec
+
+namespace FP
+
+/-- model of `kLeastAbsErrors.get_objective_value` (since fix 1c464ac):
+`sum(err * self.edge_error_scaling.get(e, 1) for e, err in edge_errors.items())` — the error columns
+read back from the solver (`edge_errors` has exactly the non-ignored edges as keys), each multiplied
+by its scale factor -/
+def reportedObjective (inp : ErrInput) (a : Asg) : Rat :=
+  (inp.basicEdges.map fun e => a (eeVar e) * inp.scale e).sum
+
+/-- history: before fix 1c464ac `get_objective_value` returned this *unscaled* sum of the error columns -/
+def unscaledErrorSum (inp : ErrInput) (a : Asg) : Rat := (inp.basicEdges.map fun e => a (eeVar e)).sum
+
+end FP
